@@ -77,6 +77,7 @@ func runC15(cfg Config, r *Result) {
 	defer model.Close()
 	r.Rule = "random typed programs with a random subset of the six event handlers (each declaring a prefix of the payload parameters, some as `_`), followed by a random sequence of events with payloads; implementation vs model after Eval and after every HandleEvent (outcome, effects, yields, globals dump); property oracle on the implementation: handlers rewritten as procedures + one call per event give the same effect trace; non-trivial = at least one delivered event reaches a handler; distinct = distinct (program, event list)"
 	c15Signatures(cfg, r, model)
+	c15HiddenNames(cfg, r, model)
 	n := cfg.N(400, 10000)
 	maxEv := cfg.N(10, 40)
 	for i := 0; i < n; i++ {
@@ -190,6 +191,52 @@ func c15Signatures(cfg Config, r *Result, model *Model) {
 					}
 				}
 			}
+		}
+	}
+}
+
+// c15HiddenNames: handlers that declare NO parameters (or `_`) ignore the payload - in particular no name of the built-in
+// signature (x y / s / n / id val) may become visible in the handler: globals with exactly those names are read and
+// updated by parameterless handlers, events are delivered, and the result must be that of the equivalent procedures.
+func c15HiddenNames(cfg Config, r *Result, model *Model) {
+	for v := 0; v < cfg.N(12, 200); v++ {
+		under := v%3 == 1 // declare the parameters as `_`
+		sig := func(ev, params string) string {
+			if under {
+				return "on " + ev + params
+			}
+			return "on " + ev
+		}
+		src := "x := 100\ny := 200\nn := 0\ns := \"S\"\nid := \"ID\"\nval := \"V\"\n" +
+			sig("down", " _:num _:num") + "\n    x = x - 1\n    y = y + 1\n    print \"down\" x y\nend\n" +
+			sig("up", " _:num _:num") + "\n    print \"up\" x y n\nend\n" +
+			sig("key", " _:string") + "\n    s = s + \"!\"\n    print \"key\" s\nend\n" +
+			sig("animate", " _:num") + "\n    n = n + 1\n    print \"anim\" n\nend\n" +
+			sig("input", " _:string _:string") + "\n    id = id + \"#\"\n    val = val + \"?\"\n    print \"input\" id val\nend\n" +
+			"print x y n s id val\n"
+		var evs []SemEvent
+		names := []string{"down", "up", "key", "animate", "input"}
+		for j := 0; j < 4+cfg.Rng.Intn(8); j++ {
+			name := names[cfg.Rng.Intn(len(names))]
+			evs = append(evs, SemEvent{Name: name, Params: eventPayloads[name](cfg.Rng)})
+		}
+		d := semCase(model, r, src, SemOpts{StopAt: -1, Events: evs, YieldBudget: 50000}, true, "hidden:")
+		if d.Impl.ParseErr != "" || len(d.Impl.Phases) == 0 {
+			continue
+		}
+		psrc, _ := c15AsProcedures(src, evs)
+		if under { // the procedure twin of `on ev _:T` needs arguments; compare only the parameterless form with procedures
+			continue
+		}
+		pr := ImplRun(psrc, SemOpts{StopAt: -1, YieldBudget: 50000})
+		if pr.ParseErr != "" || len(pr.Phases) == 0 {
+			continue
+		}
+		a, b := flatTrace(d.Impl), flatTrace(pr)
+		if strings.Join(a, "\x1e") != strings.Join(b, "\x1e") {
+			r.Violate(Violation{Kind: "property", Key: "parameterless-handler-differs-from-procedure",
+				Detail: "handlers declared without parameters do not read and update the same globals as the equivalent procedures (a payload name of the built-in signature is visible in the handler?)",
+				Input:  map[string]any{"program": src, "events": evs, "procedures": psrc}, Impl: map[string]any{"events": a, "procedures": b}})
 		}
 	}
 }
